@@ -57,10 +57,15 @@ package nsqd
 //   (elems(byte): a fresh tls.Config carries array-typed fields, which live in the byte element store - engine gap, see notes)
 //@   modifies gReads, gReadName, gReadData, gReadErr, elems(byte)
 
+// (round 7) what Main starts its goroutines on: the TCP listener, the TCP handler and the control channels exist in every daemon New returns
+// (the preconditions of Main$2 / lookupLoop are obligations where Main starts them).
+//@ pred r7Built(n *NSQD) := n != nil && n.tcpListener != nil && n.tcpServer != nil && n.notifyChan != nil && n.optsNotificationChan != nil && n.exitChan != nil
+//@ immutable NSQD.tcpListener, NSQD.tcpServer
 //@ func New(opts *Options) (*NSQD, error)
 //@   props C06 C11
 //@   nochan
 //@   requires opts != nil
+//@   ensures[built] result1 == nil ==> r7Built(result0)
 //   (round 6, area M) the HTTPS listener, if any, listens on tcp (what RealHTTPSAddr - the 403 answer of the TLS gate - relies on)
 //@   ensures[https-listener-on-tcp] result1 == nil ==> r6MHttpsOnTcp(result0)
 //@   ensures[one-lock-attempt] gDirOpens == old(gDirOpens) + 1 && (old(opts.DataPath) != "" ==> gDirOpenName == old(opts.DataPath))
